@@ -172,6 +172,12 @@ def run(ctx, out):
         except oracle_core.Unsupported:
             out.count("oracle_unsupported")
             continue
+        if getattr(ref, "unspecified", None):
+            out.count("masked_unspecified")
+            for u in set(ref.unspecified):
+                if u not in out.masked:
+                    out.masked.append(u)
+            continue
         if want[0] == "err":
             out.count("expected:limit")
             if not (code[0] == "err" and code[1].startswith("ReportableRuntimeError")):
